@@ -66,7 +66,7 @@ Proof.
   assert (Ht : t < clock w).
   { destruct (N.lt_ge_cases t (clock w)) as [X|X]; [assumption|]. rewrite (i_fresh_o _ _ _ I t X) in Ho. discriminate. }
   assert (I1 : InvB c (clock w) w1) by (apply invb_add_object; assumption).
-  destruct (parent_group w1 parent) as [g|] eqn:PG; [|unfold link_to_parent in LT; rewrite PG in LT; discriminate].
+  destruct (parent_group w1 parent) as [g|] eqn:PG; [|unfold link_to_parent in LT; destruct (strict_names c && negb (heap_name_ok nm)); [discriminate|]; rewrite PG in LT; discriminate].
   destruct (parent_group_structs _ _ _ _ _ I1 PG) as [[seg Hh] [ents Hs]].
   destruct (i_wf _ _ _ I1 g seg ents Hh Hs) as (ns & Hwf & _).
   destruct (ltp_spec c w1 parent nm t g seg ents ns PG Hh Hs Hwf Hnm)
@@ -96,7 +96,7 @@ Proof.
     + exact Rq.
 Qed.
 
-Lemma hardlink_same_object_reach : forall c h p q w', names_ok h = true -> heap_name_ok (snd (parse_path p)) = true ->
+Lemma hardlink_same_object_reach : forall c h p q w', names_ok c h = true -> heap_name_ok (snd (parse_path p)) = true ->
   step c (reach c h) (HardLink p q) = (w', Ok) ->
   exists t, resolve_object_address w' p = Some t /\ resolve_object_address w' q = Some t.
 Proof.
